@@ -102,7 +102,7 @@ PROPERTIES = {
              'catches or detaches a panic; no loop on the path of a terminal call waits only on state that other threads advance '
              '(a dead worker advances nothing) and no blocking primitive is called. Not decided: thread::scope re-raises (T2).'),
     'C15': P('parameters never change a result or make a computation fail',
-             ['C15-OBLIG', 'C15-CLAMP', 'C15-ALLOC', 'C15-CHUNKCAP'],
+             ['C15-OBLIG', 'C15-CLAMP', 'C15-ALLOC', 'C15-CHUNKCAP', 'C15-STACK'],
              STATIC + 'Decided: every panic site (overflow/div-by-zero assertion, expect, assert) of the parameter-resolution slice that '
              'depends on the configuration is discharged by a dominating guard, a constructor invariant, an arithmetic lemma or a stated '
              'assumption. Not decided: equality of results across configurations (conjunction of C01-C07); panics inside dependencies.',
